@@ -203,6 +203,8 @@ def mask_ili(o):
     for kind in ('words', 'senses', 'synsets'):
         for d in o[kind].values():
             if isinstance(d, dict):
+                # "first definition" with several contributing lexicons depends on their installation order
+                d.pop('definition', None)
                 for k_, v in list(d.items()):
                     if isinstance(v, list) and k_ != 'ili':
                         if k_ == 'forms':
